@@ -113,13 +113,12 @@ Definition pinner (p q : list (Z * Qc)) : Qc :=
 
 (* Pascal's triangle (no factorials): the textbook coefficient is
    (-1)^k C(n-k, k) C(n-2k, (n-m)/2-k) *)
-Fixpoint binomn (n k : nat) : Z :=
-  match n, k with
-  | _, O => 1
-  | O, Datatypes.S _ => 0
-  | Datatypes.S n', Datatypes.S k' => binomn n' k' + binomn n' k
-  end.
-Definition binom (n k : Z) : Z := if (n <? 0) || (k <? 0) then 0 else binomn (Z.to_nat n) (Z.to_nat k).
+Fixpoint zip_add (a b : list Z) : list Z :=
+  match a, b with x :: r, y :: t => (x + y) :: zip_add r t | _, _ => [] end.
+Fixpoint pascal_row (n : nat) : list Z :=
+  match n with O => [1] | Datatypes.S n' => let r := pascal_row n' in zip_add (0 :: r) (r ++ [0]) end.
+Definition binom (n k : Z) : Z :=
+  if (n <? 0) || (k <? 0) then 0 else nth (Z.to_nat k) (pascal_row (Z.to_nat n)) 0.
 Definition rcoef_binom (m n k : Z) : Z :=
   (if Z.even k then 1 else -1) * binom (n - k) k * binom (n - 2 * k) ((n - m) / 2 - k).
 
